@@ -193,18 +193,20 @@ fn chain_case(args: &Args, rng: &mut Rng, out: &mut Streams, dist: &mut Dist, sc
     }
     match env::update(&ix, Duration::from_secs(120)) {
       UpdateOutcome::Ok => {}
+      // C16: indexing a valid chain never fails — the implementation's outcome is the input of the
+      // oracle line (the generated chain is valid by construction)
       UpdateOutcome::Err(e) => {
-        out.emit("endblock", &format!("err {e}"));
+        out.emit(&format!("index.oracle.nofail {case} {} err:{}", node.height(), e.replace(' ', "_")), "true");
         dist.hit("impl_err");
         return;
       }
       UpdateOutcome::Panic(p) => {
-        out.emit("endblock", &format!("panic {p}"));
+        out.emit(&format!("index.oracle.nofail {case} {} panic:{}", node.height(), p.replace(' ', "_")), "true");
         dist.hit("impl_panic");
         return;
       }
       UpdateOutcome::Hang => {
-        out.emit("endblock", "hang");
+        out.emit(&format!("index.oracle.nofail {case} {} hang", node.height()), "true");
         dist.hit("impl_hang");
         return;
       }
@@ -240,7 +242,7 @@ fn chain_case(args: &Args, rng: &mut Rng, out: &mut Streams, dist: &mut Dist, sc
       probe(&ctx, rng, out, dist);
     }
     // C16 oracle: indexing a valid chain never fails (evaluated on the implementation)
-    out.emit(&format!("index.oracle.nofail {case} {}", node.height()), "true");
+    out.emit(&format!("index.oracle.nofail {case} {} ok", node.height()), "true");
   }
   outcome_dist(&ix, dist);
   dist.hit(&format!("chain_{chain}"));
